@@ -70,15 +70,19 @@ var c09Errs = map[string]error{
 }
 
 func c09OneE(load string, k int, writeFails bool, capn, bound int, errv string) *explore.Scenario {
+	return c09OneEP("C09", load, k, writeFails, capn, bound, errv)
+}
+
+func c09OneEP(prop, load string, k int, writeFails bool, capn, bound int, errv string) *explore.Scenario {
 	l := c09Loads[load]
-	fam := "C09/readfail"
-	name := fmt.Sprintf("C09/%s/failafter=%d/writefails=%v/cap=%d", load, k, writeFails, capn)
+	fam := prop + "/readfail"
+	name := fmt.Sprintf("%s/%s/failafter=%d/writefails=%v/cap=%d", prop, load, k, writeFails, capn)
 	if errv != "" {
 		name += "/err=" + errv
 	}
 	return &explore.Scenario{
 		Name:   name,
-		Family: fam, Prop: "C09", Bound: bound,
+		Family: fam, Prop: prop, Bound: bound,
 		Run: func() {
 			w := env.NewWorld()
 			d := env.NewDirect(w, env.DirectOpts{Pipe: env.PipeOpts{Cap: capn}})
